@@ -863,7 +863,7 @@ func specASResp(m message.Message) *message.AssociationSetupResponse {
 
 //@ func (pConn *PFCPConn) handleAssociationSetupRequest(msg message.Message) (reply message.Message, err error)
 //@   requires connInv(pConn) && msgWF(msg)
-//@   requires typeIs[*message.AssociationSetupRequest](msg) ==> specASReq(msg).NodeID != nil && specASReq(msg).RecoveryTimeStamp != nil
+//@   ensures C01.as.mandatory: typeIs[*message.AssociationSetupRequest](msg) && (specASReq(msg).NodeID == nil || specASReq(msg).RecoveryTimeStamp == nil) ==> reply == nil && err != nil
 //@   ensures C12.as.type: !typeIs[*message.AssociationSetupRequest](msg) ==> reply == nil && err != nil
 //@   ensures C12.as.resp: reply != nil ==> typeIs[*message.AssociationSetupResponse](reply) && dynRef(reply) != 0 && specASResp(reply).Header != nil && specASResp(reply).Header.SequenceNumber == specASReq(msg).Header.SequenceNumber && specASResp(reply).Cause != nil
 //@   ensures C12.as.gate: reply != nil ==> glen("isconn") == old[int](glen("isconn"))+1 && ((specIEu8(specASResp(reply).Cause) == ie.CauseRequestAccepted) <==> gfield("isconn.r", gentry("isconn", old[int](glen("isconn")))) == 1) && (gfield("isconn.r", gentry("isconn", old[int](glen("isconn")))) != 1 ==> specIEu8(specASResp(reply).Cause) == ie.CauseRequestRejected && err != nil)
@@ -940,6 +940,8 @@ func specProtoOK(p *pdr, f *ipFilterRule, oldProto, oldMask uint8) bool {
 
 //@ func (p *pdr) parseSDFFilter(ie *ie.IE) (err error)
 //@   requires p != nil && ie != nil
+//@   freshwrites E:uint8
+//@   ensures C01.sdf.frame: p.fseID == old[uint64](p.fseID) && p.allocIPFlag == old[bool](p.allocIPFlag)
 //@   ensures C08.sdf.atmost: glen("flowdesc") <= old[int](glen("flowdesc"))+1
 //@   ensures C08.sdf.ok: err == nil ==> glen("flowdesc") == old[int](glen("flowdesc"))+1 && specOriented(p, specFlowResult(gentry("flowdesc", old[int](glen("flowdesc"))))) && specProtoOK(p, specFlowResult(gentry("flowdesc", old[int](glen("flowdesc")))), old[uint8](p.appFilter.proto), old[uint8](p.appFilter.protoMask))
 //@   ensures C08.sdf.untouched: err != nil ==> p.appFilter == old[applicationFilter](p.appFilter)
@@ -986,6 +988,8 @@ func specVerbatim(p *pdr, f *ipFilterRule, oldProto, oldMask uint8) bool {
 
 //@ func (p *pdr) parseApplicationID(ie *ie.IE, appPFDs map[string]appPFD) (err error)
 //@   requires p != nil && ie != nil && pfdInv(appPFDs)
+//@   freshwrites E:uint8
+//@   ensures C01.appid.frame: p.fseID == old[uint64](p.fseID) && p.allocIPFlag == old[bool](p.allocIPFlag)
 //@   ensures C08.app.frame: p.srcIface == old[uint8](p.srcIface) && p.ueAddress == old[uint32](p.ueAddress)
 //@   ensures C08.app.untouched: err != nil ==> p.appFilter == old[applicationFilter](p.appFilter)
 //@   ensures C08.app.skipped: err == nil ==> (forall e int :: old[int](glen("flowdesc")) <= e && e < glen("flowdesc")-1 ==> specFlowResult(gentry("flowdesc", e)) != nil && !specDirMatches(p, specFlowResult(gentry("flowdesc", e))))
@@ -2536,3 +2540,80 @@ func specRepResp(msg message.Message) *message.SessionReportResponse {
 //@   ensures C05.report.ip: typeIs[*message.SessionReportResponse](msg) && specRepResp(msg).Cause != nil && specIEokCause(specRepResp(msg).Cause) && specIEvCause(specRepResp(msg).Cause) == ie.CauseSessionContextNotFound && old[bool](specHasSession(pConn, specMsgSEID(msg)) && specHasAllocPdr(specSession(pConn, specMsgSEID(msg)))) ==> !has(pConn.upf.ippool.inventory, specMsgSEID(msg))
 //@   ensures C05.report.other: !(typeIs[*message.SessionReportResponse](msg) && specRepResp(msg).Cause != nil && specIEokCause(specRepResp(msg).Cause) && specIEvCause(specRepResp(msg).Cause) == ie.CauseSessionContextNotFound && old[bool](specHasSession(pConn, specMsgSEID(msg)))) ==> glen("dp") == old[int](glen("dp")) && glen("gauge") == old[int](glen("gauge")) && (forall k uint64 :: specHasSession(pConn, k) <==> old[bool](specHasSession(pConn, k)))
 //@   ensures sessionEnv(pConn) && specPoolReady(pConn)
+
+// ---------------------------------------------------------------------------
+// C01 / C02: session establishment (no crash on any request; one response of the right type)
+// ---------------------------------------------------------------------------
+
+func specEstReq(msg message.Message) *message.SessionEstablishmentRequest {
+	return ptrAt[message.SessionEstablishmentRequest](dynRef(msg))
+}
+
+func specEstResp(reply message.Message) *message.SessionEstablishmentResponse {
+	return ptrAt[message.SessionEstablishmentResponse](dynRef(reply))
+}
+
+//@ func (pConn *PFCPConn) handleSessionEstablishmentRequest(msg message.Message) (reply message.Message, err error)
+//@   requires sessionEnv(pConn) && specPoolReady(pConn) && msgWF(msg)
+//@   ensures C02.est.wrongtype: !typeIs[*message.SessionEstablishmentRequest](msg) ==> reply == nil && err != nil
+//@   ensures C02.est.reply: typeIs[*message.SessionEstablishmentRequest](msg) ==> typeIs[*message.SessionEstablishmentResponse](reply) && dynRef(reply) != 0 && specEstResp(reply).Header != nil && specEstResp(reply).Header.SequenceNumber == specEstReq(msg).Header.SequenceNumber && specEstResp(reply).Cause != nil
+//@   ensures C02.est.rejected: typeIs[*message.SessionEstablishmentRequest](msg) && err != nil ==> specIEu8(specEstResp(reply).Cause) != ie.CauseRequestAccepted
+//@   ensures C02.est.accepted: typeIs[*message.SessionEstablishmentRequest](msg) && err == nil ==> specIEu8(specEstResp(reply).Cause) == ie.CauseRequestAccepted && specEstResp(reply).NodeID == pConn.nodeID.localIE && specEstResp(reply).UPFSEID != nil
+
+// ---- C01: parsing of the rule IEs never crashes (whatever the IEs contain) ----
+
+func specPoolArg(ippool *IPPool) bool {
+	return implies(ippool != nil, poolInv(ippool) && !held(&ippool.mu))
+}
+
+//@ func (p *pdr) parseUEAddressIE(ueAddrIE *ie.IE, ippool *IPPool) (err error)
+//@   requires p != nil && ueAddrIE != nil && specPoolArg(ippool)
+//@   ensures C01.ueaddr.pool: specPoolArg(ippool)
+//@   ensures C01.ueaddr.alloc: p.allocIPFlag && !old[bool](p.allocIPFlag) ==> ippool != nil
+//@   ensures C01.ueaddr.seid: p.fseID == old[uint64](p.fseID)
+
+//@ func (p *pdr) parseSourceInterfaceIE(srcIfaceIE *ie.IE) (err error)
+//@   requires p != nil && srcIfaceIE != nil
+
+//@ func (p *pdr) parseFTEID(teidIE *ie.IE) (err error)
+//@   requires p != nil && teidIE != nil
+
+//@ func (p *pdr) parsePDI(pdiIEs []*ie.IE, appPFDs map[string]appPFD, ippool *IPPool) (err error)
+//@   requires p != nil && specPoolArg(ippool) && pfdInv(appPFDs)
+//@   requires forall a int :: lo(pdiIEs) <= a && a < hi(pdiIEs) ==> at(pdiIEs, a) != nil
+//@   ensures C01.pdi.pool: specPoolArg(ippool)
+//@   ensures C01.pdi.alloc: p.allocIPFlag && !old[bool](p.allocIPFlag) ==> ippool != nil
+//@   ensures C01.pdi.seid: p.fseID == old[uint64](p.fseID)
+//@   loop 1 invariant C01.pdi.l1: p.fseID == old[uint64](p.fseID) && specPoolArg(ippool) && (p.allocIPFlag && !old[bool](p.allocIPFlag) ==> ippool != nil)
+//@   loop 2 invariant C01.pdi.l2: p.fseID == old[uint64](p.fseID) && specPoolArg(ippool) && (p.allocIPFlag && !old[bool](p.allocIPFlag) ==> ippool != nil)
+
+//@ func (p *pdr) parsePDR(ie1 *ie.IE, seid uint64, appPFDs map[string]appPFD, ippool *IPPool) (err error)
+//@   requires p != nil && ie1 != nil && specPoolArg(ippool) && pfdInv(appPFDs)
+//@   ensures C01.pdr.pool: specPoolArg(ippool)
+//@   ensures C01.pdr.alloc: p.allocIPFlag && !old[bool](p.allocIPFlag) ==> ippool != nil
+//@   ensures C01.pdr.seid: p.fseID == seid
+//@   loop 1 invariant C01.pdr.l1: p.fseID == seid && specPoolArg(ippool) && (p.allocIPFlag && !old[bool](p.allocIPFlag) ==> ippool != nil)
+
+//@ func (f *far) parseFAR(farIE *ie.IE, fseid uint64, upf *upf, op operation) (err error)
+//@   requires f != nil && farIE != nil && upf != nil
+//@   ensures C01.far.seid: f.fseID == fseid
+
+//@ func (q *qer) parseQER(ie1 *ie.IE, seid uint64) (err error)
+//@   requires q != nil && ie1 != nil
+//@   ensures C01.qer.seid: err == nil ==> q.fseID == seid
+
+// NewPFCPSession (C07/C02): a fresh record under a local SEID that no stored session has; nothing is
+// stored yet. (The retry loop gives up after maxRetries collisions.)
+//@ func (pConn *PFCPConn) NewPFCPSession(rseid uint64) (s PFCPSession, ok bool)
+//@   requires sessionEnv(pConn) && pConn.rng != nil
+//@   ensures C07.newsess.fresh: ok ==> !specHasSession(pConn, s.localSEID) && s.remoteSEID == rseid && s.metrics != nil && len(s.pdrs) == 0 && len(s.fars) == 0 && len(s.qers) == 0
+//@   ensures C05.newsess.gauge: (ok ==> glen("gauge") == old[int](glen("gauge"))+1 && gfield("gauge.session", gentry("gauge", old[int](glen("gauge")))) == uint64(refOf(s.metrics))) && (!ok ==> glen("gauge") == old[int](glen("gauge")))
+//@   ensures C02.newsess.store: forall k uint64 :: (specHasSession(pConn, k) <==> old[bool](specHasSession(pConn, k))) && (specHasSession(pConn, k) ==> same(specSession(pConn, k), old[PFCPSession](specSession(pConn, k))))
+//@   ensures sessionEnv(pConn)
+//@   loop 1 invariant C07.newsess.l1: sessionEnv(pConn) && glen("gauge") == old[int](glen("gauge")) && (forall k uint64 :: (specHasSession(pConn, k) <==> old[bool](specHasSession(pConn, k))) && (specHasSession(pConn, k) ==> same(specSession(pConn, k), old[PFCPSession](specSession(pConn, k)))))
+
+//@ func (i *InMemoryStore) PutSession(session PFCPSession) (err error)
+//@   requires i != nil
+//@   ensures C02.put.zero: (err != nil) <==> session.localSEID == 0
+//@   ensures C02.put.stored: err == nil ==> smHas(&i.sessions, session.localSEID) && smIs(&i.sessions, session.localSEID, PFCPSession{}) && same(smGet(&i.sessions, session.localSEID, PFCPSession{}), session)
+//@   ensures C02.put.others: forall k uint64 :: err != nil || k != session.localSEID ==> (smHas(&i.sessions, k) <==> old[bool](smHas(&i.sessions, k))) && (smIs(&i.sessions, k, PFCPSession{}) <==> old[bool](smIs(&i.sessions, k, PFCPSession{}))) && (smHas(&i.sessions, k) && smIs(&i.sessions, k, PFCPSession{}) ==> same(smGet(&i.sessions, k, PFCPSession{}), old[PFCPSession](smGet(&i.sessions, k, PFCPSession{}))))
